@@ -47,6 +47,29 @@ def _single_atom(p):
     return c, f[0]
 
 
+def _diagonal_entry(p, row, col):
+    """if the canonical poly p is delta(row,col) * e(row) return the Expr e (in terms of row) else None"""
+    if not p:
+        return None
+    terms = []
+    for (f, nb), c in p.items():
+        rest, found = [], False
+        for x in f:
+            if (not found) and x[0] == "D" and ((x[1] is row and x[2] is col) or (x[1] is col and x[2] is row)):
+                found = True
+            else:
+                rest.append(x)
+        if not found:
+            return None
+        # after normalisation the other factors mention only one of row/col
+        uses_col = any(u is col for x in rest for t in K._fidx(x) for u in K.ivs_in(t))
+        e = K._mono_to_expr(tuple(rest), c, {})
+        if uses_col:
+            e = K.subst(e, {col: row})
+        terms.append(e)
+    return ("add", tuple(terms))
+
+
 def _check_symmetric(w, A, row, col):
     i, j = IV(row.sort), IV(col.sort)
     e1 = K.subst(A.expr, {row: i, col: j})
@@ -77,6 +100,18 @@ def intern_matrix(w, A, want_inverse):
                 logdet = S.SymArr(A.axes[:-2], {(): lde})
                 w.inv_log.append(dict(kind="partner", atom=name))
                 return inv.fresh_copy(), logdet.fresh_copy()
+    # diagonal matrices (every monomial carries delta(row, col)): GtvLemmas.det_diagonal / inverse of a diagonal
+    dg = _diagonal_entry(p, row, col)
+    if dg is not None:
+        w.hints_used.append("GtvLemmas.det_diagonal")
+        r2 = IV(row.sort)
+        lde = K.ssum(r2, K.fn("log", K.subst(dg, {row: r2})))
+        logdet = S.SymArr(A.axes[:-2], {(): lde})
+        inv = None
+        if want_inverse:
+            inv = S.SymArr(A.axes, {(): K.mul(K.delta(row, col), K.powr(dg, -1))}).fresh_copy()
+        w.inv_log.append(dict(kind="diagonal"))
+        return inv, logdet.fresh_copy()
     # generic: intern by canonical form
     occurring = [v for v in batch_comps if any(v is u for u in K._free_ivs_of_canon(p))]
     order = occurring + [row, col]
@@ -87,6 +122,15 @@ def intern_matrix(w, A, want_inverse):
     m2[row], m2[col] = m[col], m[row]
     form2, _ = K._poly_form(p, m2)
     key = min(form, form2, key=repr)
+    rule_ld = None
+    if key in w.ld_rules_by_key:
+        rule = w.ld_rules_by_key[key]
+        m_ = dict(zip(rule["batch"], occurring))
+        val = K.rename_bound(K.subst(rule["value"], m_))
+        w.hints_used.append(rule["lemma"])
+        rule_ld = S.SymArr(A.axes[:-2], {(): val}).fresh_copy()
+        if not want_inverse:
+            return None, rule_ld
     rec = w.inv_registry.get(key)
     if rec is None:
         n = len(w.inv_registry)
@@ -107,6 +151,8 @@ def intern_matrix(w, A, want_inverse):
     if want_inverse:
         inv = S.SymArr(A.axes, {(): K.atom(rec["inv"], *occurring, row, col)}).fresh_copy()
     logdet = S.SymArr(A.axes[:-2], {(): K.atom(rec["ld"], *occurring)}).fresh_copy()
+    if rule_ld is not None:
+        logdet = rule_ld
     return inv, logdet
 
 
@@ -154,3 +200,37 @@ def cholesky_contract(A):
         rec = dict(n=len(reg), name=f"Chol{len(reg)}", X=A)
         reg[form] = rec
     return S.SymArr(A.axes, {(): K.atom(rec["name"], *occurring, row, col)}).fresh_copy()
+
+
+def matrix_key(w, A):
+    """canonical interning key of a (non-block) matrix array, with the list of batch IVs it depends on"""
+    A = A.fresh_copy()
+    row, col = _matrix_axes(A)
+    p = K.normalize(A.expr, w.ctx)
+    batch_comps = [c for a in A.axes[:-2] for c in a.comps]
+    occurring = [v for v in batch_comps if any(v is u for u in K._free_ivs_of_canon(p))]
+    order = occurring + [row, col]
+    m = {v: ("H", k) for k, v in enumerate(order)}
+    form, _ = K._poly_form(p, m)
+    m2 = dict(m)
+    m2[row], m2[col] = m[col], m[row]
+    form2, _ = K._poly_form(p, m2)
+    return min(form, form2, key=repr), A, occurring
+
+
+def add_logdet_rule(w, matrix, value, lemma):
+    """LogDet[matrix] := value, justified by a lemma of the Lean-checked library (gtv/lemmas.py builds both sides)"""
+    key, A, occurring = matrix_key(w, matrix)
+    value = S._lift(value)
+    # align value's batch axes with the matrix's batch axes
+    bm = {}
+    vb = value.fresh_copy()
+    if vb.ndim != A.ndim - 2:
+        raise S.ShapeError("logdet rule: value rank does not match the matrix batch rank")
+    for va, ma in zip(vb.axes, A.axes[:-2]):
+        if va.unit:
+            continue
+        if va.sorts() != ma.sorts():
+            raise S.ShapeError("logdet rule: batch layout mismatch")
+        bm.update(zip(va.comps, ma.comps))
+    w.ld_rules_by_key[key] = dict(batch=occurring, value=K.subst(vb.expr, bm), lemma=lemma)
